@@ -28,6 +28,8 @@ pub enum Text {
   /// (byte length, flavour): 0 ASCII letters; 1 multi-byte prefix (é, 😀, NUL, '.') padded with ASCII;
   /// 2 a JSON object `{"d":"aaa…"}`; 3 4-byte code points padded with ASCII
   Sized(u32, u8),
+  /// a JSON-looking document built deterministically from (shape, size, variant) - see `doc`
+  Doc(u8, u16, u8),
 }
 
 impl Text {
@@ -35,6 +37,7 @@ impl Text {
     match self {
       Text::Lit(s) => s.clone(),
       Text::Sized(len, flavour) => sized(*len as usize, *flavour),
+      Text::Doc(shape, n, variant) => doc(*shape, *n as usize, *variant),
     }
   }
   pub fn len_bucket(&self) -> &'static str {
@@ -84,6 +87,109 @@ pub fn sized(len: usize, flavour: u8) -> String {
   s
 }
 
+/// JSON-looking documents of the kinds footers and messages carry in practice (key sets, nested metadata), plus
+/// their broken relatives. shape 0: a key set with `n` entries, each holding arrays; 1: `n` levels of nesting
+/// (objects, arrays or alternating); 2: `n` members whose values are empty containers; 3: shape 0/1/2 with brackets
+/// unbalanced (one closer too many / too few / of the wrong kind, at the start, the end or in the middle);
+/// 4: brackets and quotes inside string values; 5: a flat list of `n` scalars.
+pub fn doc(shape: u8, n: usize, variant: u8) -> String {
+  let v = variant as usize;
+  match shape % 6 {
+    0 => {
+      let mut s = String::from("{\"keys\":[");
+      for i in 0..n {
+        if i > 0 {
+          s.push(',');
+        }
+        match v % 3 {
+          0 => s.push_str(&format!("{{\"kid\":\"k{i}\",\"ops\":[\"verify\"]}}")),
+          1 => s.push_str(&format!("{{\"kid\":\"k{i}\",\"ops\":[\"sign\",\"verify\"],\"x\":[],\"y\":[[{i}]]}}")),
+          _ => s.push_str(&format!("[\"k{i}\",[{i}]]")),
+        }
+      }
+      s.push_str("]}");
+      s
+    }
+    1 => {
+      let (open, close): (Vec<char>, Vec<char>) = (0..n)
+        .map(|i| match v % 3 {
+          0 => ('{', '}'),
+          1 => ('[', ']'),
+          _ => if i % 2 == 0 { ('{', '}') } else { ('[', ']') },
+        })
+        .unzip();
+      let mut s = String::new();
+      for c in &open {
+        s.push(*c);
+        if *c == '{' {
+          s.push_str("\"a\":");
+        }
+      }
+      s.push_str(if v % 2 == 0 { "1" } else { "\"x\"" });
+      for c in close.iter().rev() {
+        s.push(*c);
+      }
+      if n == 0 || open[0] != '{' {
+        // documents that do not start with an object are documents too
+      }
+      s
+    }
+    2 => {
+      let mut s = String::from("{");
+      for i in 0..n {
+        if i > 0 {
+          s.push(',');
+        }
+        s.push_str(&format!("\"m{i}\":{}", ["{}", "[]", "{\"meta\":{}}", "[[],{}]"][(v + i * (v / 4 % 2)) % 4]));
+      }
+      s.push('}');
+      s
+    }
+    3 => {
+      let base = doc((v % 3) as u8, n.min(40), (v / 3) as u8);
+      let extra = ['}', ']', '{', '[', ')', '"'][v / 9 % 6];
+      match v % 5 {
+        0 => format!("{base}{extra}"),
+        1 => format!("{extra}{base}"),
+        2 => base[..base.len().saturating_sub(1)].to_string(),
+        3 => {
+          let mid = base.len() / 2;
+          format!("{}{extra}{}", &base[..mid], &base[mid..])
+        }
+        _ => format!("{{{extra}{extra}"),
+      }
+    }
+    4 => {
+      let inner = ["]", "}}", "}}\\\"}", "[[[", "{\\\"a\\\":1}", "]]}}]]", "\\u005d\\u007d", "/*]*/"][v % 8];
+      let mut s = String::from("{");
+      for i in 0..n.max(1) {
+        if i > 0 {
+          s.push(',');
+        }
+        s.push_str(&format!("\"a{i}\":\"{inner}\""));
+      }
+      s.push('}');
+      s
+    }
+    _ => {
+      let mut s = String::from(if v % 2 == 0 { "[" } else { "{\"l\":[" });
+      for i in 0..n {
+        if i > 0 {
+          s.push(',');
+        }
+        s.push_str(&["0", "null", "true", "\"s\"", "-1.5e3", "[]"][(i + v) % 6].to_string());
+      }
+      s.push_str(if v % 2 == 0 { "]" } else { "]}" });
+      s
+    }
+  }
+}
+
+/// structured documents: sizes concentrate on small values but reach the hundreds (many shallow containers) and depth 200
+pub fn doc_text() -> impl Strategy<Value = Text> {
+  (0u8..6, prop_oneof![4 => 0u16..8, 4 => 8u16..40, 3 => 40u16..200, 1 => 200u16..600], any::<u8>()).prop_map(|(shape, n, variant)| Text::Doc(shape, n, variant))
+}
+
 const JSONISH: &[u8] = b"{}[]\":, abcdefghijklmnopqrstuvwxyzABCXYZ0123456789.=-_+/\\%";
 
 pub fn jsonish(max: usize) -> impl Strategy<Value = String> {
@@ -104,7 +210,13 @@ pub fn unicode(max: usize) -> impl Strategy<Value = String> {
   vec(mixed_char(), 0..=max).prop_map(|v| v.into_iter().collect())
 }
 
-const SPECIALS: [&str; 54] = [
+const SPECIALS: [&str; 70] = [
+  // strings that look like what footers carry in deployed systems: PASERK key ids and (mis-placed) serialised keys,
+  // key-id JSON, URLs, another token
+  "k4.lid.iVtYQDjr5gEijCSjJC3fQaJm7nCeQSeaty0Jixy8dbsk", "k4.pid.9ShR3xc8-qVJ_di0tc9nx0IDIqbatdeM2mqLFBJsKRHs", "k4.local.cHFyc3R1dnd4eXp7fH1-f4CBgoOEhYaHiImKi4yNjo8",
+  "k4.public.cHFyc3R1dnd4eXp7fH1-f4CBgoOEhYaHiImKi4yNjo8", "k2.secret.cHFyc3R1dnd4eXp7fH1-f4CBgoOEhYaHiImKi4yNjo8", "k3.local-pw.AAAA", "k1.secret-pw.AAAA", "k4.seal.AAAA", "k4.local-wrap.pie.AAAA",
+  "{\"kid\":\"k4.lid.iVtYQDjr5gEijCSjJC3fQaJm7nCeQSeaty0Jixy8dbsk\"}", "{\"wpk\":\"k4.local-wrap.pie.AAAA\",\"kid\":\"k4.lid.AAAA\"}",
+  "https://example.com/.well-known/keys?kid=1&v=4#frag", "urn:uuid:6e8bc430-9c3a-11d9-9669-0800200c9a66", "v4.public.eyJhIjoxfQ.AAAA", "Bearer v2.local.AAAA", "2019-01-01T00:00:00+00:00",
   "", ".", "..", "\0", "a.b", "=", "==", "é", "😀", " ", "\u{feff}", "v4.local.", "AAAA", "null", "{}", "\"", "\u{0}\u{0}", "\u{10ffff}",
   "\\", "\u{2028}", "\u{d7ff}", "\u{e000}", "\u{ffff}", "\u{fffd}", "%00", "\r\n", "\t", "a\u{301}", "\u{200b}", "\u{202e}abc", "true", "0", "-0", "1e400", "[]",
   "{\"a\":1}", "\u{7f}", "\u{80}", "\u{7ff}\u{800}", "\u{1}\u{1f}",
@@ -130,6 +242,7 @@ pub fn text() -> BoxedStrategy<Text> {
     1 => special().prop_map(Text::Lit),
     2 => boundary(BOUNDARY_LENS.len()),
     1 => (0u32..300, 0u8..4).prop_map(|(l, f)| Text::Sized(l, f)),
+    2 => doc_text(),
   ]
   .boxed()
 }
@@ -141,6 +254,7 @@ pub fn short_text() -> BoxedStrategy<Text> {
     3 => unicode(16).prop_map(Text::Lit),
     1 => special().prop_map(Text::Lit),
     1 => boundary(20),
+    1 => doc_text(),
   ]
   .boxed()
 }
@@ -215,6 +329,17 @@ pub fn json_key() -> BoxedStrategy<String> {
     1 => special().prop_filter("non-empty", |s| !s.is_empty()),
   ]
   .boxed()
+}
+
+/// large / regular JSON values: key sets with hundreds of small arrays, hundreds of empty containers, nesting to depth 60,
+/// long flat lists, brackets inside strings (the well-formed shapes of `doc`)
+pub fn json_doc_value() -> BoxedStrategy<Value> {
+  (prop_oneof![Just(0u8), Just(1u8), Just(2u8), Just(4u8), Just(5u8)], prop_oneof![3 => 0u16..12, 3 => 12u16..130, 2 => 130u16..400], any::<u8>())
+    .prop_map(|(shape, n, variant)| {
+      let n = if shape == 1 { n.min(60) } else { n };
+      serde_json::from_str::<Value>(&doc(shape, n as usize, variant)).unwrap_or(Value::Null)
+    })
+    .boxed()
 }
 
 pub fn json_value(depth: u32) -> BoxedStrategy<Value> {
